@@ -5,7 +5,7 @@ Import ListNotations.
 From PG Require Import Common.Tactics Model.SymCoreDefs Model.SymCoreOps Model.SymCoreSpec Model.SymCoreC02
      Proofs.SymCoreBase Proofs.SymCoreWF Proofs.SymCoreWFOps Proofs.SymCoreClone Proofs.SymCoreIds Proofs.SymCoreC02Read
      Proofs.SymCoreC02Frame Proofs.SymCoreC02Prim Proofs.SymCoreC02List Proofs.SymCoreC02Dict Proofs.SymCoreC02Step
-     Proofs.SymCoreC02Slice Proofs.SymCoreC02WF.
+     Proofs.SymCoreC02Slice Proofs.SymCoreC02WF Proofs.SymCoreC02Or.
 From PG Require Model.PyList Model.PyDict.
 Local Open Scope Z_scope.
 
@@ -91,3 +91,8 @@ Qed.
 Definition ex_mul_history : list (scope * hop) := [ (sc0, HB (LIMul 2)); (sc0, HB (LMul 3)); (sc0, HB (LPop (Some 4))) ].
 Example ex_mul_hypotheses : lhist2_ok default_flags (evals ex_list_items) ex_mul_history.
 Proof. unfold ex_mul_history. cbn [lhist2_ok]. hist_ok. Qed.
+
+(* a plain dict as the other operand of | *)
+Example ex_or_hypotheses : plain_xdop (DOr [(ka, RLeaf (LInt 5)); (KI 3, RLit (LitNode KList default_flags true []))]) /\
+  xdop_of (DROr [(kb, RLeaf LNone)]) = Some (PyDict.PDROr [(kb, PLeaf LNone)]).
+Proof. split; [split; [repeat constructor|]|reflexivity]. repeat constructor; simpl; intuition discriminate. Qed.
